@@ -28,6 +28,9 @@ impl Iterator for BasicLexer {
 
     fn next(&mut self) -> Option<Self::Item> {
         if let Some(t) = self.pending.pop_front() {
+            if matches!(t, Token::Word(Word::Rem1)) {
+                self.remark = true;
+            }
             return Some(t);
         }
         let pk = self.chars.front()?;
@@ -318,11 +321,35 @@ impl BasicLexer {
     }
 
     fn alphabetic(&mut self) -> Option<Token> {
+        // A REM found inside a run of letters starts the remark right after it:
+        // the rest of the run is remark text and must not be tokenized.
+        let run: String = self
+            .chars
+            .iter()
+            .take_while(|c| is_basic_alphabetic(**c))
+            .map(|c| c.to_ascii_uppercase())
+            .collect();
+        let mut limit = usize::MAX;
+        let mut probe: VecDeque<Token> = VecDeque::default();
+        Token::scan_alphabetic(&mut probe, &run);
+        let mut len = 0;
+        for token in &probe {
+            len += token.to_string().len();
+            if matches!(token, Token::Word(Word::Rem1)) {
+                limit = len;
+                break;
+            }
+        }
         let mut s = String::new();
         let mut digit = false;
         while let Some(ch) = self.chars.pop_front() {
             let ch = ch.to_ascii_uppercase();
             s.push(ch);
+            if s.len() == limit {
+                s = Token::scan_alphabetic(&mut self.pending, &s);
+                debug_assert!(s.is_empty());
+                break;
+            }
             if is_basic_digit(ch) {
                 digit = true;
             }
